@@ -139,4 +139,35 @@ def envOk (σ : Static) (fuel : Nat) (work : Option Work) (h : List Tick) : Bool
    | none => false
    | some (e, q) => runOk σ fuel e q h)
 
+/-! ## Well-formed data (hypothesis of clause P3b)
+
+What the executor guarantees about the *data* carried by the work it feeds the scheduler, for
+deferred fragments (no streams): a task's value is an object that lives at the path of (all)
+the fragments the task belongs to, and a fragment introduced by the result of a task lies
+inside the data of that very result. -/
+
+open Gql.Spec.Protocol in
+def isObj : Option J → Bool
+  | some (.obj _) => true
+  | _ => false
+
+open Gql.Spec.Protocol in
+/-- One task result is well-formed data for task `t`. -/
+def resultDataOk (σ : Static) (π : PubStatic) (t : Nat) (r : TResult) : Prop :=
+  r.value.groups = σ.tgroups t ∧
+  (∀ g ∈ σ.tgroups t, π.gpath g = r.value.path) ∧
+  isObj (some r.value.data) = true ∧
+  (∀ w, r.work = some w → w.streams = [] ∧
+    ∀ g ∈ w.groups, ∃ q, π.gpath g = r.value.path ++ q ∧ isObj (resolve r.value.data q) = true)
+
+open Gql.Spec.Protocol in
+/-- The whole environment carries well-formed data over the initial data `initData`. -/
+def DataOk (σ : Static) (π : PubStatic) (initData : J) (work : Option Work) (h : List Tick) : Prop :=
+  (∀ w, work = some w → w.streams = [] ∧ ∀ g ∈ w.groups, isObj (resolve initData (π.gpath g)) = true) ∧
+  (∀ t r, (σ.mode t = .sync r ∨ σ.mode t = .early r) → resultDataOk σ π t r) ∧
+  (∀ tick ∈ h, ∀ ev ∈ tick, match ev with
+    | .taskSuccess t r => resultDataOk σ π t r
+    | .taskFailure _ => True
+    | _ => False)
+
 end Gql.Async
